@@ -135,6 +135,31 @@ func c10SharedBacking(t *rapid.T) {
 	stats.C.Case(true, stats.Hash(whole, []byte{byte(n)}), "shared-backing")
 }
 
+// c10Retained: the bytes returned for one value stay what they are while further values are encoded (callers queue
+// encoded commands before they are written).
+func c10Retained(t *rapid.T) {
+	n := rapid.IntRange(2, 40).Draw(t, "values")
+	var kept, want [][]byte
+	for i := 0; i < n; i++ {
+		v := gen.RespValue(3).Draw(t, "v")
+		var b []byte
+		var err error
+		if rapid.Bool().Draw(t, "must") {
+			b = redis.MustEncodeToBytes(toResp(v))
+		} else if b, err = redis.EncodeToBytes(toResp(v)); err != nil {
+			t.Fatalf("encode: %v", err)
+		}
+		kept, want = append(kept, b), append(want, append([]byte{}, v.Bytes()...))
+	}
+	for i := range kept {
+		if !bytes.Equal(kept[i], want[i]) {
+			violation(t, "C10", "encoding-overwritten", "the encoding of value %d of %d, kept while the later ones were encoded, now reads %q; it was %q", i+1, n, kept[i], want[i])
+			return
+		}
+	}
+	stats.C.Case(true, stats.Hash(bytes.Join(want, nil)), "retained")
+}
+
 func c10RoundTrip(t *rapid.T) {
 	v := gen.RespValue(4).Draw(t, "v")
 	want := v.Bytes()
@@ -399,6 +424,21 @@ func c10Malformed(t *rapid.T) {
 		}
 		count++
 	}
+	// a one-character number that is no digit, followed by what its "value" (c-'0', as a byte) would announce
+	{
+		c := rapid.Byte().Filter(func(b byte) bool { return (b < '0' || b > '9') && b != '\r' && b != '\n' }).Draw(t, "nondigit")
+		v := int(byte(c - '0'))
+		for _, m := range [][]byte{
+			[]byte(fmt.Sprintf(":%c\r\n", c)),
+			append(append([]byte(fmt.Sprintf("$%c\r\n", c)), bytes.Repeat([]byte("p"), v)...), '\r', '\n'),
+			append([]byte(fmt.Sprintf("*%c\r\n", c)), bytes.Repeat([]byte(":1\r\n"), v)...),
+		} {
+			if mustErr(t, "non-digit-number", m) {
+				return
+			}
+			count++
+		}
+	}
 	// a stray CR in front of the line terminator of a number / length line
 	for _, m := range []string{":5\r\r\n", "$3\r\r\nfoo\r\n", "*1\r\r\n:1\r\n", ":-7\r\r\r\n", "$0\r\r\n\r\n"} {
 		if mustErr(t, "number-line-with-stray-cr", []byte(m)) {
@@ -515,6 +555,7 @@ func TestC10(t *testing.T) {
 	t.Run("malformed", func(t *testing.T) { rapid.Check(t, c10Malformed) })
 	t.Run("args", func(t *testing.T) { rapid.Check(t, c10Args) })
 	t.Run("shared", func(t *testing.T) { rapid.Check(t, c10SharedBacking) })
+	t.Run("retained", func(t *testing.T) { rapid.Check(t, c10Retained) })
 }
 
 // Integer table boundaries, exhaustively around the pre-rendered range.
